@@ -132,6 +132,7 @@ func vmRun(fn string, canary int) HarnessRun {
 }
 
 const v2Pkg = ledgerMod + "/internal/api/v2"
+const v1Pkg = ledgerMod + "/internal/api/v1"
 
 const apiPkg = ledgerMod + "/internal/api"
 
@@ -197,9 +198,15 @@ var specs = map[string]*CheckSpec{
 	"C17": {
 		ID: "C17", Patterns: []string{bpPkg, lsPkg},
 		Runs: []HarnessRun{bpRun("ZZ_C17Col", "ZZ_C17ColN", "ZZ_C17ColDesc", "column pagination:", []int{5, 12}), bpRun("ZZ_C17Off", "ZZ_C17OffN", "ZZ_C17OffDesc", "offset pagination:", []int{3}),
-			{Pkg: lsPkg, Dir: "internal/storage/ledgerstore", Mod: "ledger", Fn: "ZZ_C17Cursor", Shapes: countShapes(lsPkg, "ZZ_C17CursorN"), Cfg: cmdCfg, Desc: harnessDesc(lsPkg, "ZZ_C17CursorDesc", "cursor round trip:"), CanaryShapes: []int{0}}},
+			{Pkg: lsPkg, Dir: "internal/storage/ledgerstore", Mod: "ledger", Fn: "ZZ_C17Cursor", Shapes: countShapes(lsPkg, "ZZ_C17CursorN"), Cfg: cmdCfg, Desc: harnessDesc(lsPkg, "ZZ_C17CursorDesc", "cursor round trip:"), CanaryShapes: []int{0}},
+			{Pkg: lsPkg, Dir: "internal/storage/ledgerstore", Mod: "ledger", Fn: "ZZ_C17Filter", Shapes: func(s *Session, tier string) []int {
+				if tier == "thorough" {
+					return []int{0, 1, 2, 3}
+				}
+				return []int{0, 1, 2}
+			}, Cfg: cmdCfg, Desc: harnessDesc(lsPkg, "ZZ_C17FilterDesc", "cursor filter:"), CanaryShapes: []int{1}}},
 		Bounds: func(tier string) map[string]any {
-			return map[string]any{"column_pagination": "collections of 0..4 rows with arbitrary increasing ids, every page size 1..n+1, both orders: full forward traversal and previous from every page", "offset_pagination": "collections of 0..4 rows; offset (< 2^40) and page size (1..MaxPageSize) are arbitrary 64-bit values: one-step law", "cursor": "every cursor handed out is decoded again through UnmarshalCursor (base64 + JSON model); cursors of the transactions / accounts / logs listings with and without a filter round-trip and build the same WHERE clause", "outside": "bun's SQL generation and PostgreSQL's ordering (the table is an abstract ordered relation; natively a fake database/sql driver)"}
+			return map[string]any{"column_pagination": "collections of 0..4 rows with arbitrary increasing ids, every page size 1..n+1, both orders: full forward traversal and previous from every page", "offset_pagination": "collections of 0..4 rows; offset (< 2^31: bun keeps OFFSET as int32, larger offsets need a collection of 2^31 rows) and page size (1..MaxPageSize) are arbitrary 64-bit values: one-step law", "cursor_filter": "every filter tree of depth <= 2 over {$match,$lt,$and,$or,$not}, sets of up to 3 items at depth 1 and up to 2 (thorough 3) at depth 2: the builder decoded from the cursor renders the same clause", "cursor": "every cursor handed out is decoded again through UnmarshalCursor (base64 + JSON model); cursors of the transactions / accounts / logs listings with and without a filter round-trip and build the same WHERE clause", "outside": "bun's SQL generation and PostgreSQL's ordering (the table is an abstract ordered relation; natively a fake database/sql driver)"}
 		},
 		Assumptions: []string{"*bun.SelectQuery is an abstract ordered table: Where/OrderExpr/Offset/Limit/Scan have their SQL meaning; negative LIMIT/OFFSET is an error", "row ids are distinct (strictly increasing)", "reflect is answered from go/types", "encoding/json and base64 modelled over ropes"},
 		Encoded:     []string{"bunpaginate.UsingColumn", "bunpaginate.UsingOffset", "bunpaginate.(*ColumnPaginatedQuery).EncodeAsCursor", "bunpaginate.(*OffsetPaginatedQuery).EncodeAsCursor", "bunpaginate.EncodeCursor", "bunpaginate.UnmarshalCursor", "bunpaginate.Order.Reverse", "bunpaginate.(*BigInt).MarshalJSON/UnmarshalJSON", "ledgerstore.(*PaginatedQueryOptions).UnmarshalJSON", "query.set/keyValue/not.MarshalJSON", "query.ParseJSON"},
@@ -346,10 +353,18 @@ var specs = map[string]*CheckSpec{
 		Rule: "each log the write path persists is encoded, decoded, re-encoded (text equality as ropes) and its hash recomputed from the round-tripped entry and the predecessor",
 	},
 	"C14": {
-		ID: "C14", Patterns: []string{cmdPkg}, NeedHelper: true,
-		Runs:   []HarnessRun{commandRun("ZZ_C14", rangeShapes(7), kindDesc, []int{0, 3})},
-		Bounds: cmdBounds, Assumptions: cmdStubs, Encoded: cmdEncoded,
-		Rule: "two-world differential per write kind: [preview, real, later real] against [real, later real] from the same symbolic pre-state; responses, ids, log sequence and published events compared",
+		ID: "C14", Patterns: []string{cmdPkg, v1Pkg, v2Pkg}, NeedHelper: true,
+		Runs: []HarnessRun{commandRun("ZZ_C14", rangeShapes(7), kindDesc, []int{0, 3}),
+			{Pkg: v2Pkg, Dir: "internal/api/v2", Mod: "ledger", Fn: "ZZ_C14Flag", Shapes: rangeShapes(12), Cfg: cmdCfg, Desc: harnessDesc(v2Pkg, "ZZ_C14FlagDesc", "v2"), CanaryShapes: []int{0, 3}},
+			{Pkg: v1Pkg, Dir: "internal/api/v1", Mod: "ledger", Fn: "ZZ_C14Flag", Shapes: rangeShapes(12), Cfg: cmdCfg, Desc: harnessDesc(v1Pkg, "ZZ_C14FlagDesc", "v1"), CanaryShapes: []int{0, 3}}},
+		Bounds: func(tier string) map[string]any {
+			m := cmdBounds(tier)
+			m["flag_value"] = "v1 preview= and v2 dryRun=: every alphanumeric byte string of length 1..4 (symbolic bytes), alone, after another parameter, with an Idempotency-Key header; escaped or longer values are outside"
+			return m
+		},
+		Assumptions: append([]string{"the spellings that put a request in dry-run mode are the documented boolean (true in any letter case, 1) and the legacy yes (any case) both API versions accept at the pinned commit"}, cmdStubs...),
+		Encoded:     append([]string{"v1.getCommandParameters", "v2.getCommandParameters", "net/url.ParseQuery (interpreted)"}, cmdEncoded...),
+		Rule: "two-world differential per write kind: [preview, real, later real] against [real, later real] from the same symbolic pre-state; responses, ids, log sequence and published events compared; plus, per flag length, Parameters.DryRun compared with the spelling predicate for arbitrary bytes",
 	},
 	"C16": {
 		ID: "C16", Patterns: []string{cmdPkg}, NeedHelper: true,
